@@ -183,6 +183,8 @@ func c02Plan(tier string) []PlanItem {
 		items = append(items, PlanItem{scnRestart("restart/"+stopName(sv)+"-K1", K1, sv), d})
 	}
 	items = append(items,
+		PlanItem{scnCtxCancel("ctx-cancel-K1", K1, false), d},
+		PlanItem{scnCtxCancel("ctx-cancel-then-stop-K1", K1, true), d},
 		PlanItem{failingStop(scnStop("stop/stopctx+wait+to100ms", K1, Item{Do: "stopctx", WaitForDemote: true, Timeout: 100 * ms}, "A", "B")), d},
 		PlanItem{failingStop(scnStop("stop/stopctx+expired-ctx", K1, Item{Do: "stopctx", CtxTimeout: -1}, "A", "B")), d},
 		PlanItem{scnRestartLate("restart-late/stop-K1", K1, Item{Do: "stop"}), d},
